@@ -231,7 +231,8 @@ func c12Boundary(x *engine.X, tier string) {
 	burst := 1 + x.Deviate(3, "burst size")
 	raw2 := raw
 	var raw2Port = rawPort
-	if burst > 1 && x.Deviate(2, "second sender socket") == 1 {
+	// (a free choice once there is a burst: "which sender" must not cost the deviation the burst itself already took)
+	if burst > 1 && x.Pick(2, "second sender socket") == 1 {
 		raw2, raw2Port, _ = kern.UDPSocket()
 		fd2 := raw2
 		x.Defer(func() { syscall.Close(fd2) })
@@ -252,6 +253,7 @@ func c12Boundary(x *engine.X, tier string) {
 		from string
 		err  error
 		data []byte
+		addr net.Addr // the object the read handed out (packet conn): it is the caller's from then on
 	}
 	var gots []got
 	// the caller's buffer: a slice of its own, or a window into a larger array (len < cap) guarded by canaries —
@@ -287,11 +289,11 @@ func c12Boundary(x *engine.X, tier string) {
 				if from != nil {
 					f = from.String()
 				}
-				gots = append(gots, got{m, f, err, append([]byte{}, buf[:max(0, min(m, len(buf)))]...)})
+				gots = append(gots, got{m, f, err, append([]byte{}, buf[:max(0, min(m, len(buf)))]...), from})
 			} else {
 				m, from, err := mp.Read(buf)
 				checkCanary(m)
-				gots = append(gots, got{m, from.String(), err, append([]byte{}, buf[:max(0, min(m, len(buf)))]...)})
+				gots = append(gots, got{m, from.String(), err, append([]byte{}, buf[:max(0, min(m, len(buf)))]...), nil})
 			}
 			return
 		}
@@ -313,7 +315,7 @@ func c12Boundary(x *engine.X, tier string) {
 				if from != nil {
 					f = from.String()
 				}
-				gots = append(gots, got{m, f, err, append([]byte{}, buf[:max(0, min(m, len(buf)))]...)})
+				gots = append(gots, got{m, f, err, append([]byte{}, buf[:max(0, min(m, len(buf)))]...), from})
 			})
 		} else {
 			mp.AsyncRead(buf, func(err error, m int, from netip.AddrPort) {
@@ -322,7 +324,7 @@ func c12Boundary(x *engine.X, tier string) {
 				if calls > 1 {
 					x.Fail("udp.read/callback-twice", "callback ran %d times", calls)
 				}
-				gots = append(gots, got{m, from.String(), err, append([]byte{}, buf[:max(0, min(m, len(buf)))]...)})
+				gots = append(gots, got{m, from.String(), err, append([]byte{}, buf[:max(0, min(m, len(buf)))]...), nil})
 			})
 		}
 		ioc.Dispatched = 0
@@ -376,6 +378,10 @@ func c12Boundary(x *engine.X, tier string) {
 		}
 		if g.from != sent[i].from {
 			x.Fail("udp.read/sender-address", "datagram %d came from %s, reported as %q", i, sent[i].from, g.from)
+		}
+		// the address a read reported stays what it was: looked at again after all later reads have completed
+		if g.addr != nil && g.addr.String() != sent[i].from {
+			x.Fail("udp.read/sender-address-changed-later", "datagram %d came from %s and was reported so; after the later reads the same net.Addr says %s (it is shared between reads)", i, sent[i].from, g.addr.String())
 		}
 	}
 	if kern.WouldNotBlockRead(fd) {
